@@ -429,7 +429,7 @@ func checkC11() *CheckDef {
 			b := bounds(tier)
 			return map[string]interface{}{
 				"literal_bytes_max": b.la, "literal_grammar": "quotes + ASCII body with escapes \\n \\r \\t \\\\ \\' \\\" only (other escapes are outside the claim)",
-				"docstring_bytes_max": b.lb, "literal_in_context_bytes_max": b.lc, "arbitrary_document_bytes_max": b.nd,
+				"docstring_bytes_max": b.lb, "docstring_whitespace_lines": "every whitespace-only line of the comment is an empty line of the docstring: all inputs of <= 4 bytes", "literal_in_context_bytes_max": b.lc, "arbitrary_document_bytes_max": b.nd,
 				"integer_literals": "decimal: 1..3 symbolic digits, optional sign; hex: 1..2 symbolic digits, and 16 digits with a symbolic leading digit",
 				"field_lists": "h11s: struct / exception / parameter lists of 2 fields from a menu (id or none, required/optional/none, separator , ; none, docstring), symbolic field names, optionally after an earlier Parse that left a docstring unclaimed or failed: ids, requiredness, names, docstrings, lines",
 				"ast_walk":         "one program with a constant of each scalar kind (symbolic values), a list and a map: every node visited once with a parent",
@@ -492,7 +492,11 @@ var pkgGen17 = PkgDef{Path: genPkg, Dir: "gen", Name: "gen", Files: []string{"ge
 
 var pkgMain = PkgDef{Path: "go.uber.org/thriftrw", Dir: ".", Name: "main", Files: []string{"main/zz_h17m.go"}}
 
-var pkgIntPlugin = PkgDef{Path: intPluginPkg, Dir: "internal/plugin", Name: "plugin", Files: []string{"internal_plugin/zz_export.go", "internal_plugin/zz_h16a.go"}}
+var pkgIntPlugin = PkgDef{Path: intPluginPkg, Dir: "internal/plugin", Name: "plugin", Files: []string{"internal_plugin/zz_export.go", "internal_plugin/zz_h16a.go", "internal_plugin/zz_h16f.go"}, Rewrites: []Rewrite{
+	// the plugin process is a scripted transport (h16f)
+	{File: "flag.go", Old: "process.NewClient(f.Command)", New: "zzNewClient(f)", Count: 1},
+	{File: "flag.go", Old: "const _pluginExecPrefix", New: "var _ = process.NewClient\n\nconst _pluginExecPrefix", Count: 1},
+}}
 
 func checkC17() *CheckDef {
 	type bnd struct {
@@ -565,6 +569,9 @@ func checkC16() *CheckDef {
 				out = append(out, &sym.HarnessConfig{Name: "h16a", Pkg: intPluginPkg, Params: map[string]int{"l": l}, Budget: 5000000, BigLim: 64})
 				out = append(out, &sym.HarnessConfig{Name: "h16c", Pkg: pluginPkg, Params: map[string]int{"l": l}, Budget: 5000000, BigLim: 64})
 			}
+			for n := 1; n <= 3; n++ {
+				out = append(out, &sym.HarnessConfig{Name: "h16f", Pkg: intPluginPkg, Params: map[string]int{"plugins": n}, Budget: 5000000, BigLim: 64, AllMapOrders: true})
+			}
 			out = append(out, &sym.HarnessConfig{Name: "h16b", Pkg: framePkg, Params: map[string]int{"l": b.lf, "free": b.free}, Budget: 5000000, BigLim: 16})
 			out = append(out, &sym.HarnessConfig{Name: "h16_witness", Pkg: intPluginPkg, Params: map[string]int{"l": 1}, BigLim: 64, ExpectViolation: true})
 			return out
@@ -575,7 +582,8 @@ func checkC16() *CheckDef {
 				"handshake_reply": fmt.Sprintf("envelope type 0..127, plugin name (%d bytes), API version (4 bytes), <=2 features: all symbolic; plus truncation at every offset", b.l),
 				"frames":          fmt.Sprintf("two frames of <= %d symbolic bytes, first %d reads arbitrarily segmented (incl. one zero-length read), truncation at every offset", b.lf, b.free),
 				"plugin_side":     "plugin.Main over in-memory pipes: handshake then goodbye, symbolic name and seqids, with/without generator",
-				"outside":         "processes, pipes, reaping, exit status, concurrent plugins, early exit, Flag/Flags handle management (not reachable by sequential symbolic execution)",
+				"flags_handle":    "h16f: Flags.Handle over 1..3 plugins, each: process does not start / handshake under a wrong name / good handshake with a symbolic feature id; opened in every order (concurrent.Range modelled sequentially in every order); then generate through the combined generator and Close; process.NewClient textually redirected to a scripted transport",
+				"outside":         "real processes, pipes, reaping, exit status, true concurrency, early exit, main.do's own use of the handle",
 			}
 		},
 		Assume: commonAssume,
@@ -694,7 +702,7 @@ func checkC04() *CheckDef {
 	c.Bounds = func(tier string) map[string]interface{} {
 		b := bounds(tier)
 		return genBounds(c, map[string]interface{}{"arbitrary_bytes_max": b.n, "mutations_of_reference_encodings": fmt.Sprintf("truncation at every offset or %d arbitrary byte substitution(s)", b.muts),
-			"readers": "random access; streaming over seekable and one-shot non-seekable sources; gH04c: an encoding with an unknown leading field (14 shapes) decoded from a stream whose first 4 reads are arbitrarily segmented (incl. one zero-length read)",
+			"readers": "random access; streaming over seekable and one-shot non-seekable sources; gH04c: an encoding with an unknown leading field (15 shapes) decoded from a stream whose first 4 reads are arbitrarily segmented (incl. one zero-length read)",
 			"boundary_lengths": "gH04v with every string/binary leaf 252, 253, 256 or 257 bytes long (pattern content, symbolic first and last byte)",
 			"value_shapes": "mutated encodings: concrete leaves, containers of 1 element, every nilable field present (thorough: also all absent); value direction: shapes as in C01",
 			"outside":      "programs outside the corpus"})
@@ -731,8 +739,8 @@ func checkC05() *CheckDef {
 	}
 	c.Bounds = func(tier string) map[string]interface{} {
 		return genBounds(c, map[string]interface{}{
-			"evolution_steps": "one step on the top-level struct: unknown field (symbolic id, 14 well-formed shapes, field boundaries; also decoded from a stream whose first 4 reads are arbitrarily segmented); declared field re-encoded with another wire type; declared field removed; fields reversed; a container field re-encoded as the same kind of container with another element type (read as absent by both paths)",
-			"value_shapes":    "as C01; steps with foreign values: base values with all nilable fields absent or all present; quick: unknown field at the first or last boundary and 8 of the 14 shapes for re-typing, thorough: every boundary, all shapes",
+			"evolution_steps": "one step on the top-level struct: unknown field (symbolic id, 15 well-formed shapes incl. one nested 70 levels deep, field boundaries; also decoded from a stream whose first 4 reads are arbitrarily segmented); declared field re-encoded with another wire type; declared field removed; fields reversed; a container field re-encoded as the same kind of container with another element type, map keys and values of different widths (read as absent by both paths)",
+			"value_shapes":    "as C01; steps with foreign values: base values with all nilable fields absent or all present; quick: unknown field at the first or last boundary and 8 of the 15 shapes for re-typing, thorough: every boundary, all shapes",
 			"outside":         "steps inside nested structs/containers; two or more steps",
 		})
 	}
